@@ -33,6 +33,9 @@ LEDGER_CFG = {
             [R("gpu", "any", 2), R("cpu", "any", 1)],
             [R("gpu", "g1", 1)],
             [R("cpu", "c1", 2), R("gpu", "any", 1)],
+            # an entry BEFORE one that names a specific instance: when that instance is exhausted while a sibling of the
+            # same name is free the whole request must be refused with nothing allocated
+            [R("cpu", "any", 1), R("gpu", "g2", 1)],
         ],
     },
     "thorough": {
